@@ -329,6 +329,18 @@ theorem compsJson_eq {α : Type} (info : MInfo) (tasks : Option (List (JTask α)
   unfold Src.jsonLoop at this
   simp only [this]
 
+/-- the participant test of the multi-participant `.mat` loader, as the source spells it, is
+    equality of the stimulus lists (`numpy.array_equal(data[v], stimuli)`) -/
+theorem matSame_eq : sameStim mlMatSame = fun (a b : List Str) => a == b := by
+  have h : mlMatSame = 1 := by decide
+  funext a b
+  simp [sameStim, h]
+
+theorem compsMat_eq {α : Type} (info : MInfo) (vars : List (Str × MatVal α)) :
+    Src.compsMat info vars = Importers.compsMat info vars := by
+  unfold Src.compsMat Importers.compsMat
+  rw [matSame_eq]
+
 /-! ### SPM -/
 
 theorem parseRegName_eq (s : Str) : Src.parseRegName s = Importers.parseRegName s := by
